@@ -52,7 +52,7 @@ CHECKS = {
          RC_NOTE, "DESIGN.md 3 C08"),
  "C10": ("happens-before race monitor (vector clocks over exactly the Go memory model edges) and chunked-write atomicity oracle evaluated on every execution of an exhaustive, deviation-bounded schedule exploration of all call pairs on BaseClient and on the reconnecting client (with a reconnect in progress)",
          "Every unordered pair of API calls runs concurrently with each other, with the reader acknowledging inbound QoS 1/2 traffic and (upper layers) with a reconnect; all schedules within the stated preemption / delay bound are executed on the instrumented real code; any two conflicting accesses not ordered by happens-before are reported (so detection does not depend on the accesses being adjacent in a lucky run), and every Write must stay contiguous on a transport that hands each Write to the peer in two chunks.",
-         "trusted: vrt scheduler+shims and the vector-clock monitor, rewriter instrumentation of struct fields, maps and captured variables (slice elements and data behind pointers handed to user code are not instrumented); transport reads/writes are not treated as happens-before edges",
+         "trusted: vrt scheduler+shims and the vector-clock monitor, rewriter instrumentation of struct fields, maps, captured variables and slice/array elements (data reached only through copy/append or behind pointers handed to user code is not instrumented); transport reads/writes are not treated as happens-before edges",
          "DESIGN.md 3 C10, 2.6"),
  "C11": ("exhaustive schedule exploration (P<=1/2 after settling, P<=2/3 S<=1 T<=1 with a racing cause) of every blocking call x exchange step x cause on a real BaseClient / ReconnectClient under virtual time",
          "For every call kind, every step of its exchange and every cause (context cancel, deadline, local Close, peer close, malformed packet, cause before the call) alone and in pairs, at quiescence no caller is still blocked, a cancelled context is reported as that context's error, Done() is closed and the reader task has exited when the connection ended.",
